@@ -31,7 +31,7 @@ MAIN = 'xdoctest.__main__.main'
 
 
 def run(ctx):
-    for fn in (r1_flags, r2_failed_list, r3_keys, r4_exit_status, r5_gathering, r6_disable_marker_anchored, r7_no_mutation_of_iterated_lists, r8_list_names_every_example):
+    for fn in (r1_flags, r2_failed_list, r3_keys, r4_exit_status, r5_gathering, r6_disable_marker_anchored, r7_no_mutation_of_iterated_lists, r8_list_names_every_example, r9_native_mode_is_set):
         ctx.rep.rule(fn, ctx)
 
 
@@ -939,6 +939,36 @@ def r8_list_names_every_example(ctx):
                'the names are logged at level %s only: at the default / lower verbosity `list` prints nothing and still exits 0' % ctx.src(lv), anchor=DM)
 
 
+def r9_native_mode_is_set(ctx):
+    """a DocTest is created in mode 'pytest' (in that mode run() raises pytest's Skipped for an all-skipped doctest).  The native runner therefore
+    switches every collected example to 'native' before anything runs: without it an all-skipped doctest ends the native run with a foreign
+    exception instead of being tallied as skipped"""
+    rep = ctx.rep
+    fi = ctx.func('xdoctest.doctest_example.DocTest.__init__')
+    a = fi.node.args
+    dflt = dict(zip([x.arg for x in a.args[len(a.args) - len(a.defaults):]], a.defaults))
+    d = dflt.get('mode')
+    default_native = isinstance(d, ast.Constant) and d.value == 'native'
+    n = 0
+    for q in (DM, 'xdoctest.runner.doctest_callable'):
+        f = ctx.func(q)
+        g = ctx.cfg(f)
+        dom = ctx.dom(g, g.entry)
+        runs = [nd for nd in g.nodes if not nd.dup for c in node_calls(nd) if ctx.res.resolve_call(f, c)[0] == 'repo' and ctx.res.resolve_call(f, c)[1][0].qualname == RUNEX]
+        if not runs:
+            continue
+        sets = [nd for nd in g.nodes if nd.kind == 'stmt' and not nd.dup and isinstance(nd.ast, ast.Assign) and any(isinstance(t, ast.Attribute) and t.attr == 'mode' for t in nd.ast.targets)
+                and isinstance(nd.ast.value, ast.Constant) and nd.ast.value.value == 'native']
+        for rn in runs:
+            n += 1
+            heads = [fr.head for s_ in sets for fr in s_.frames if fr.kind == 'loop']
+            ok = default_native or any(dom.dominates(h, rn) for h in heads) or any(dom.dominates(s_, rn) for s_ in sets)
+            rep.ob('C10.R9', ctx.loc(f, rn.ast), '%s: examples are switched to native mode before _run_examples' % f.name, ok,
+                   'every example handed to the run loop was set to mode "native"' if ok else
+                   'the examples keep the constructor default mode "pytest": an all-skipped doctest raises pytest.skip() inside the native runner', anchor=q)
+    rep.floor('C10.R9', 'native run entry points', n, 1)
+
+
 # ---------------------------------------------------------------------------
 from ..selftest import fire, silent      # noqa: E402
 
@@ -946,6 +976,7 @@ RN = 'xdoctest/runner.py'
 MA = 'xdoctest/__main__.py'
 DE = 'xdoctest/doctest_example.py'
 VARIANTS = [
+    fire('native-runner-keeps-pytest-mode', 'C10.R9', (RN, "        for example in examples:\n            example.mode = 'native'\n", "        for example in examples:\n            pass\n")),
     fire('dump-converts-disabled-doctests', 'C10.R5', (RN, "                if gather_all and example.is_disabled():\n", "                if command == 'all' and example.is_disabled():\n")),
     fire('two-disable-markers-fused', 'C10.R6', (DE, "            r'>>>\\s*#\\s*SCRIPT',\n", "            r'>>>\\s*#\\s*SCRIPT'\n")),
     fire('named-by-substring-of-callname', 'C10.R5', (RN, "            if gather_all or command in example.valid_testnames:\n", "            if gather_all or command in example.unique_callname:\n")),
